@@ -495,3 +495,101 @@ def run_getitem(c):
     cont = untag(c['c'], ids)
     k, r = outcome(getitem, cont, untag(c['k'], ids), *[untag(x, ids) for x in c['d'] or []])
     return {'out': ['exc', r] if k == 'exc' else tag(r, ids), 'after': tag(cont, ids)}
+
+
+# ---------------------------------------------------------------------------------------------------------
+# AccessSig
+# ---------------------------------------------------------------------------------------------------------
+_FUNCS = {}
+
+
+def make_function(sig):
+    """the function of a signature: it returns its binding (parameters in order, *args as 'args', **kwargs as 'kw')"""
+    key = repr(sorted(sig.items()))
+    if key in _FUNCS:
+        return _FUNCS[key]
+    pos, kwonly = list(sig['pos'] or []), list(sig['kwonly'] or [])
+    nreq = len(pos) - sig['ndef']
+    params = [n if i < nreq else "%s='d%s'" % (n, n) for i, n in enumerate(pos)]
+    names = list(pos)
+    if sig['varargs']:
+        params.append('*args'); names.append('args')
+    elif kwonly:
+        params.append('*')
+    for n, d in zip(kwonly, sig['kwdef'] or []):
+        params.append("%s='d%s'" % (n, n) if d else n); names.append(n)
+    if sig['varkw']:
+        params.append('**kw'); names.append('kw')
+    src = 'def f(%s):\n    return [%s]\n' % (', '.join(params), ', '.join('(%r, %s)' % (n, n) for n in names))
+    ns = {}
+    exec(src, ns)
+    _FUNCS[key] = ns['f']
+    return ns['f']
+
+
+def enc_binding(kind, r):
+    if kind == 'exc':
+        return ['exc', r]
+    return ['ok', [[n, tag(x)] for n, x in r]]
+
+
+def enc_spec(spec):
+    return {'args': list(spec.args), 'varargs': spec.varargs or '', 'varkw': spec.varkw or '',
+            'defaults': [tag(x) for x in (spec.defaults or ())], 'kwonly': list(spec.kwonlyargs or []),
+            'kwdefaults': [[k, tag(v)] for k, v in sorted((spec.kwonlydefaults or {}).items())]}
+
+
+def _target(c):
+    f = make_function(c['sig'])
+    pre = c.get('pre')
+    if pre and pre['on']:
+        f = functools.partial(f, *[untag(x) for x in pre['pos'] or []], **{n: untag(x) for n, x in pre['kw'] or []})
+    return f
+
+
+def run_sig(area, c):
+    import pyg_base._inspect as I
+    o = {}
+    if area in ('defaults', 'defaults_partial'):
+        k, r = outcome(I.argspec_defaults, _target(c))
+        o['out'] = ['exc', r] if k == 'exc' else ['ok', sorted([str(n), tag(x)] for n, x in r.items())]
+    elif area == 'required':
+        k, r = outcome(I.argspec_required, _target(c))
+        o['out'] = ['exc', r] if k == 'exc' else ['ok', [str(n) for n in r]]
+    elif area == 'getargs':
+        k, r = outcome(I.getargs, _target(c), c['n'])
+        o['out'] = ['exc', r] if k == 'exc' else ['ok', [str(n) for n in r]]
+    elif area in ('add', 'update'):
+        spec = I.getargspec(_target(c))
+        if area == 'add':
+            k, r = outcome(I.argspec_add, spec, **{n: untag(x) for n, x in c['upd'] or []})
+        else:
+            f, x = c['f']
+            x = x or []
+            val = {'args': lambda: list(x), 'defaults': lambda: tuple(untag(v) for v in x), 'varargs': lambda: x or None,
+                   'varkw': lambda: x or None, 'kwonly': lambda: list(x)}[f]()
+            k, r = outcome(I.argspec_update, spec, **{'kwonlyargs' if f == 'kwonly' else f: val})
+        o['out'] = ['exc', r] if k == 'exc' else ['ok', enc_spec(r)]
+        o['cls'] = type(r).__name__ if k == 'val' else ''
+        o['after'] = enc_spec(spec)
+    elif area == 'k2a':
+        args = tuple(untag(x) for x in c['call']['pos'] or [])
+        kwargs = {n: untag(x) for n, x in c['call']['kw'] or []}
+        k, r = outcome(I.kwargs2args, _target(c), args, kwargs)
+        if k == 'exc':
+            o['out'] = ['exc', r]
+        else:
+            a2, k2 = r
+            o['out'] = ['ok', {'pos': [tag(x) for x in a2], 'kw': sorted([str(n), tag(x)] for n, x in k2.items())}]
+        o['after'] = sorted([n, tag(x)] for n, x in kwargs.items())
+    elif area == 'partialize':
+        k, r = outcome(I.partialize, _target(c), *[untag(x) for x in c['args'] or []], **{n: untag(x) for n, x in c['kwargs'] or []})
+        if k == 'exc':
+            o['ispartial'], o['out'] = 'F', ['exc', r]
+        else:
+            o['ispartial'] = 'T' if isinstance(r, functools.partial) else 'F'
+            pr = c['probe']
+            o['out'] = enc_binding(*outcome(r, *[untag(x) for x in pr['pos'] or []], **{n: untag(x) for n, x in pr['kw'] or []}))
+    else:
+        raise ValueError(area)
+    return o
